@@ -223,10 +223,19 @@ def _core_obj(t):
 
 
 def _repeat_test(jm: JoinModel, c) -> bool:
-    """`the key of the row being indexed already has a bucket`"""
+    """`the key of the row being indexed already has a bucket` - or, after the row was appended, `its bucket holds more than
+    one row`."""
+    from ..symx import const
     from .joinrules import _first_sight
     t, pol = c
-    return _first_sight(jm, (t, not pol))
+    if _first_sight(jm, (t, not pol)):
+        return True
+    if t[0] == "cmp" and pol and t[2][0] == "call" and t[2][1] == ("name", "len") and len(t[2][2]) == 1 and jm._is_bucket_term(t[2][2][0]):
+        b = t[2][2][0]
+        key = b[2][0] if b[0] == "call" else b[2]
+        if jm.key_of(key) == ("R", ("idx", jm.index_loop)):
+            return (t[1] == "Gt" and t[3] == const(1)) or (t[1] == "GtE" and t[3] == const(2))
+    return False
 
 
 def _left_check(c: _Card) -> Tuple[bool, str, Optional[ast.AST]]:
@@ -315,9 +324,13 @@ def _no_influence(c: _Card) -> Tuple[bool, str, Optional[ast.AST]]:
             for x in subterms(r.term):
                 if x[0] == "call":
                     msg_terms.add(x)
+    pure = {"len", "isinstance", "bool", "iter", "next", "range", "enumerate", "zip", "type", "repr", "str", "int", "tuple", "sorted",
+            "min", "max", "any", "all", "hash", "id", "callable", "getattr", "hasattr"}
     for e in it.events:
         if is_book(e) or (e.kind == "call" and e.term in msg_terms):
             continue
+        if e.kind == "call" and e.term[1][0] == "name" and e.term[1][1] in pure and not _mentions(e.term, ex):
+            continue            # evaluating a pure builtin has no effect; what is done with its value is judged where it is used
         # 1. data dependence
         for tm in (e.term, e.value):
             if tm is not None and _mentions(tm, ex):
